@@ -71,19 +71,40 @@ def pair_agreement(ctx, rule="R13.2"):
     t_out = [n for n in ast.walk(p2l) if isinstance(n, ast.BinOp) and isinstance(n.op, ast.Mult) and "time_scale" in (ast.unparse(n.left), ast.unparse(n.right))]
     ok = len(t_in) == 1 and ast.unparse(t_in[0].left) == "latlon[2]" and len(t_out) == 1 and "pos[3]" in (ast.unparse(t_out[0].left), ast.unparse(t_out[0].right))
     ctx.check(ok, rule, GEO + "::latlon2pos/pos2latlon", "time (3rd input row / 4th output row) is divided by time_scale going in and multiplied coming back", "time-scale")
-    ok = "pos_tuple + (latlon[2] / time_scale,)" in ast.unparse(l2p)
+    # the returned array as a decision table over `temporal`, locals followed: rows of the array in both cases
+    from ..small import UnrollError, return_cases
+
+    def tuple_elts(e):
+        if isinstance(e, ast.Tuple):
+            return list(e.elts)
+        if isinstance(e, ast.BinOp) and isinstance(e.op, ast.Add):
+            a, b = tuple_elts(e.left), tuple_elts(e.right)
+            return None if a is None or b is None else a + b
+        return None
+
+    rows = {}
+    try:
+        for conds, txt in return_cases(l2p, opaque=("latlon",)):
+            e = ast.parse(txt, mode="eval").body
+            if isinstance(e, ast.Call) and ast.unparse(e.func) in ("np.array", "np.asarray") and e.args:
+                rows[tuple(sorted(conds))] = tuple_elts(e.args[0])
+    except UnrollError:
+        rows = {}
+    r_t, r_s = rows.get(("temporal",)), rows.get(("not temporal",))
+    ok = r_t is not None and r_s is not None and len(r_t) == 4 and len(r_s) == 3 and [ast.unparse(x) for x in r_t[:3]] == [ast.unparse(x) for x in r_s] and ast.unparse(r_t[3]) == "latlon[2] / time_scale"
     ctx.check(ok, rule, GEO + "::latlon2pos", "the time axis is appended after the three spatial axes (never mixed into space)", "time-last")
     r1 = [n for n in ast.walk(l2p) if isinstance(n, ast.Call) and ast.unparse(n.func).endswith("reshape")]
     r2 = [n for n in ast.walk(p2l) if isinstance(n, ast.Call) and ast.unparse(n.func).endswith("reshape")]
     ok = len(r1) == 1 and len(r2) == 1 and ast.unparse(r1[0].args[0]) == "(3 if temporal else 2, -1)" and ast.unparse(r2[0].args[0]) == "(4 if temporal else 3, -1)"
     ctx.check(ok, rule, GEO + "::latlon2pos/pos2latlon", "(lat, lon[, t]) <-> (x, y, z[, t]) row counts agree", "rows")
     # spherical coordinates: x = R cos(lat) cos(lon), y = R cos(lat) sin(lon), z = R sin(lat); lat = arcsin(z/R), lon = arctan2(y, x)
-    pt = [n for n in ast.walk(l2p) if isinstance(n, ast.Assign) and ast.unparse(n.targets[0]) == "pos_tuple"]
     ok = False
-    if len(pt) == 1 and isinstance(pt[0].value, ast.Tuple) and len(pt[0].value.elts) == 3:
-        f = [signed_factors(e) for e in pt[0].value.elts]
+    if r_s is not None and len(r_s) == 3:
+        f = [signed_factors(e) for e in r_s]
+        lat, lon = "np.deg2rad(latlon[:2])[0]", "np.deg2rad(latlon[:2])[1]"
         ok = (f[0] == (1, sorted(["radius", "np.cos(lat)", "np.cos(lon)"]), []) and f[1] == (1, sorted(["radius", "np.cos(lat)", "np.sin(lon)"]), [])
               and f[2][0] == 1 and "radius" in f[2][1] and "np.sin(lat)" in f[2][1])
+        del lat, lon
     ctx.check(ok, rule, GEO + "::latlon2pos", "(x, y, z) = R (cos lat cos lon, cos lat sin lon, sin lat)", "sphere-forward")
     txt = ast.unparse(p2l)
     ok = "pos[2] / radius" in txt and "np.arcsin(" in txt and "np.arctan2(pos[1], pos[0])" in txt
